@@ -32,7 +32,7 @@ REG = dict(
           "own or another object's callback), finalizers run exactly once and not inside a callback of their object, once "
           "callbacks run once or (base freed first) never, and after event_base_free the allocation census (per-object "
           "attribution) and the fd table are back to their values before the case; after libevent_global_shutdown nothing is "
-          "live (own census and LeakSanitizer). ASan turns any touch of released memory into a violation."),
+          "live (own census and LeakSanitizer). ASan turns any touch of released memory into a violation. One case in five runs behind a crowd of 40 anonymous deferred-callback evbuffers so that the objects' own deferred callbacks land on the base's active-later queue and are scheduled twice there; signal events are activated with 1-4 pending deliveries and released inside a chosen delivery."),
     note=("Single-threaded histories only (cross-thread release is sampled by C09's harness). Releasing events, bufferevents, "
           "listeners and deferred-callback evbuffers after their base was freed is treated as illegal use and not generated. "
           "The allocation census is the harness's own event_set_mem_functions allocator (same design as common/memfault.c plus "
